@@ -230,6 +230,46 @@ def bind_pattern(pat, nf, env):
         raise Unrecognised(f"pattern kind {k}", pat)
 
 
+def nf_replace(n, old, new):
+    """structural replacement of a sub-form"""
+    if n == old:
+        return new
+    if not isinstance(n, tuple):
+        return n
+    return tuple(nf_replace(x, old, new) for x in n)
+
+
+def _some_payload(v):
+    """(value, condition) of `payload Some` of v: looks through Option::map"""
+    if isinstance(v, tuple) and v[0] == "map":
+        inner_val, inner_cond = ("payload", "Some", v[1]), ("islet", "Some(_)", v[1])
+        return v[2], inner_cond
+    if isinstance(v, tuple) and v[0] == "call" and v[1] == "Some" and len(v[2]) == 1:
+        return v[2][0], None
+    return ("payload", "Some", v), ("islet", "Some(_)", v)
+
+
+def iter_view(it):
+    """(source, element value, conditions): an iterator chain `src.filter(p).map(f).filter_map(g)` read as a loop over `src` whose
+    body sees `element value` when all `conditions` [(cond_nf, True)] hold. Adaptors that change which elements are visited in a
+    way a loop body could not (take, skip, step_by, rev, zip, chain, ..) are not looked through: they stay the source."""
+    if isinstance(it, tuple) and it[0] == "call" and isinstance(it[1], str) and it[1].startswith("iter::") and len(it[2]) == 2:
+        name = it[1][6:]
+        recv, body = it[2]
+        if name in ("map", "filter", "filter_map", "inspect"):
+            src, val, conds = iter_view(recv)
+            body2 = nf_replace(body, ("elem", recv), val)
+            if name == "map":
+                return src, body2, conds
+            if name == "inspect":
+                return src, val, conds
+            if name == "filter":
+                return src, val, conds + [(body2, True)]
+            v, c = _some_payload(body2)
+            return src, v, conds + ([(c, True)] if c is not None else [])
+    return it, ("elem", it), []
+
+
 def pat_label(p):
     return H.pat_desc(p)
 
@@ -773,18 +813,20 @@ class Extractor:
                     bind_pattern(e["pat"], item, env_b)
                     self._visit(fn, e["body"], env_b, ctx, out, "stmt")
                 return
+            src, val, conds = iter_view(it)
             env_b = env.child()
-            bind_pattern(e["pat"], ("elem", it), env_b)
-            self._visit(fn, e["body"], env_b, ctx + (("star", it),), out, "stmt")
+            bind_pattern(e["pat"], val, env_b)
+            self._visit(fn, e["body"], env_b, ctx + (("star", src),) + tuple(("alt", c, b) for c, b in conds), out, "stmt")
             return
         if k == "MethodCall" and e["name"] in ("for_each", "try_for_each") and H.strip(e["args"][0]).get("k") == "Closure":
             it = self.NF.nf(e["recv"], env)
+            src, val, conds = iter_view(it)
             clo = H.strip(e["args"][0])
             env_b = env.child()
             for pat in clo["body"]["params"]:
-                bind_pattern(pat, ("elem", it), env_b)
+                bind_pattern(pat, val, env_b)
             inner_how = "closure-try" if e["name"] == "try_for_each" else "closure"
-            self._visit(fn, clo["body"]["value"], env_b, ctx + (("star", it),), out, inner_how)
+            self._visit(fn, clo["body"]["value"], env_b, ctx + (("star", src),) + tuple(("alt", c, b) for c, b in conds), out, inner_how)
             return
         if k == "Loop":
             raise Unrecognised("writes inside a `loop`/`while`", e)
@@ -833,11 +875,11 @@ class Extractor:
 
 
 def _diverges(e):
-    """The block/expression always leaves the function (ends in `return`)."""
+    """The block/expression always leaves the function or the current loop iteration (ends in `return` / `continue`)."""
     e = H.strip(e)
     k = e.get("k")
-    if k == "Ret":
-        return True
+    if k in ("Ret", "Continue"):
+        return True   # `continue` leaves the loop body: for the rest of the body it acts like an early return
     if k == "Block":
         b = e["b"]
         if b.get("tail"):
@@ -925,9 +967,10 @@ class EnvWalker:
                     bind_pattern(e["pat"], item, env_b)
                     self._w(e["body"], env_b, cb, ctx)
             else:
+                src, val, conds = iter_view(it)
                 env_b = env.child()
-                bind_pattern(e["pat"], ("elem", it), env_b)
-                self._w(e["body"], env_b, cb, ctx + (("star", it),))
+                bind_pattern(e["pat"], val, env_b)
+                self._w(e["body"], env_b, cb, ctx + (("star", src),) + tuple(("alt", c, b) for c, b in conds))
         elif k == "Loop":
             self._block(e["body"], env, cb, ctx + (("star", ("unknown", "loop")),))
         elif k == "MethodCall":
@@ -970,6 +1013,12 @@ class EnvWalker:
         env2 = env.child()
         name = call.get("name") if call and call.get("k") == "MethodCall" else None
         is_iter = call is not None and ("Iterator" in (call.get("path") or "") or name in ("for_each", "filter_map"))
+        if name in ("for_each", "try_for_each") and is_iter:
+            src, val, conds = iter_view(recv)
+            for pat in body["params"]:
+                bind_pattern(pat, val, env2)
+            self._w(body["value"], env2, cb, ctx + (("star", src),) + tuple(("alt", c, b) for c, b in conds))
+            return
         if name in ("map", "and_then", "is_some_and", "filter", "find", "any", "position", "for_each", "filter_map", "map_or",
                     "inspect", "all", "find_map", "flat_map", "try_for_each", "retain"):
             arg = ("elem", recv) if is_iter else ("payload", "Some", recv)
